@@ -58,6 +58,9 @@ var c14Sources = []string{
 	"match(\"^a+$\", s) ? 1 : 0",
 	"n ^ 2 / (k + 1) - abs(-n) + round(k / 3) + min(n, k)",
 	"{a: n, b: {c: [s, s + s], d: k}}.b.c[1] + string({x: xs}.x)",
+	// a user lazy function forced while more than 42 operands are live
+	"string([n, k, 3, 4, 5, 6, 7, 8, 9, 10, 11, 12, 13, 14, 15, 16, 17, 18, 19, 20, 21, 22, 23, 24, 25, 26, 27, 28, 29, 30, 31, 32, 33, 34, 35, 36, 37, 38, 39, 40, 41, 42, 43, 44, 45, 46, 47, lzIf(n < k, n * 100, k * 100), fst(n, k)])",
+	"max([3, 4, 5, 6, 7, 8, 9, 10, 11, 12, 13, 14, 15, 16, 17, 18, 19, 20, 21, 22, 23, 24, 25, 26, 27, 28, 29, 30, 31, 32, 33, 34, 35, 36, 37, 38, 39, 40, 41, 42, 43, 44, 45, 46, 47, lzIf(b, mix(n, k, 1), mix(k, n, 2))]) + len([3, 4, 5, 6, 7, 8, 9, 10, 11, 12, 13, 14, 15, 16, 17, 18, 19, 20, 21, 22, 23, 24, 25, 26, 27, 28, 29, 30, 31, 32, 33, 34, 35, 36, 37, 38, 39, 40, 41, 42, 43, 44, 45, 46, 47, lzIf(!b, 1, 2)])",
 }
 
 func c14Env(g, j int) map[string]interface{} {
@@ -329,9 +332,104 @@ func c14Cold(c *run.Ctx, caseNo *int, rep int, closureBackend bool) {
 	})
 }
 
+// c14Dynamic: one compiled expression with dynamically dispatched calls,
+// invoked concurrently with hand-built environments that bind different
+// function values.
+func c14Dynamic(c *run.Ctx, caseNo *int, rep int, closureBackend bool) {
+	backend := map[bool]string{false: "vm", true: "closure"}[closureBackend]
+	fT := types.Fun("f", []*types.Type{types.Num}, types.Num)
+	srcs := []string{"[f][0](n) + k", "fs[0](n) + fs[1](k)", "if(n > 0, f, g)(n)", "[f, g][n % 2](k) + [g, f][n % 2](k)", "get([f], 0, g)(n) * 2"}
+	for si, src := range srcs {
+		*caseNo++
+		if !c.Mine(*caseNo) {
+			continue
+		}
+		si, src, no := si, src, *caseNo
+		c.Case(fmt.Sprintf("dynamic/%s/%d/%d", backend, si, rep), func() {
+			r := c.Rng("dynamic", no)
+			nG := 16 + r.Intn(33)
+			tenv := types.NewEnv()
+			tenv.Put("n", types.Num)
+			tenv.Put("k", types.Num)
+			tenv.Put("f", fT)
+			tenv.Put("g", fT)
+			tenv.Put("fs", types.List(fT))
+			cl, err := c14Engine(closureBackend).Compile(src, tenv)
+			if err != nil {
+				c.Violation("concurrent-outcome", fmt.Sprintf("%q does not compile: %v", src, err), nil)
+				return
+			}
+			mkEnv := func(g, j int) *val.Env {
+				base := float64(1000 * (g + 1))
+				f := val.Fun(fT, func(a ...*val.Val) *val.Val { return val.Num(base + a[0].Num().V) })
+				gg := val.Fun(fT, func(a ...*val.Val) *val.Val { return val.Num(-base - a[0].Num().V*2) })
+				e := val.NewEnv()
+				e.Put("n", val.Num(float64(j%7+1)))
+				e.Put("k", val.Num(float64(g%5+2)))
+				e.Put("f", f)
+				e.Put("g", gg)
+				l := val.List(types.List(fT).List(), 2)
+				l.List().V[0], l.List().V[1] = f, gg
+				e.Put("fs", l)
+				return e
+			}
+			want := func(g, j int) float64 {
+				base := float64(1000 * (g + 1))
+				n, k := float64(j%7+1), float64(g%5+2)
+				f := func(x float64) float64 { return base + x }
+				gg := func(x float64) float64 { return -base - x*2 }
+				switch si {
+				case 0:
+					return f(n) + k
+				case 1:
+					return f(n) + gg(k)
+				case 2:
+					return f(n)
+				case 3:
+					if int(n)%2 == 0 {
+						return f(k) + gg(k)
+					}
+					return gg(k) + f(k)
+				}
+				return f(n) * 2
+			}
+			spins := make([]int, 17)
+			for i := range spins {
+				spins[i] = r.Intn(300)
+			}
+			K := 30
+			bad := make([]string, nG)
+			cold := r.Intn(2) == 0
+			if !cold {
+				cl(mkEnv(0, 0))
+			}
+			c14Run(nG, spins, func(g int) {
+				for j := 0; j < K; j++ {
+					v, err := cl(mkEnv(g, j))
+					if (err != nil || v.Num().V != want(g, j)) && bad[g] == "" {
+						bad[g] = fmt.Sprintf("call %d gives %s %v, expected %v", j, safeStr(v), err, want(g, j))
+					}
+				}
+			})
+			c.Count("concurrent_invocations", nG*K)
+			for g, b := range bad {
+				if b != "" {
+					c.Violation("concurrent-outcome", fmt.Sprintf("%s: %q invoked from %d goroutines with different function values bound (cold=%v): goroutine %d %s", backend, src, nG, cold, g, b), nil)
+					return
+				}
+			}
+			c.Distinct(fmt.Sprintf("dynamic/%s/%d/%d", backend, si, nG))
+		})
+	}
+}
+
 func runC14(c *run.Ctx) {
 	reps := c.Pick(10, 50)
 	caseNo := 0
+	for rep := 0; rep < reps; rep++ {
+		c14Dynamic(c, &caseNo, rep, false)
+		c14Dynamic(c, &caseNo, rep, true)
+	}
 	for rep := 0; rep < reps; rep++ {
 		c14Cold(c, &caseNo, rep, false)
 		c14Cold(c, &caseNo, rep, true)
